@@ -158,10 +158,9 @@ def handle (c : RCfg) (s : RSt) (p : Pkt) (env : Env) : RSt × List Act :=
     else if p.rhl - 1 > 0 then (s, [.send (fwd p)]) else (s, [])
   | .lsRep =>
     if mid p.de = me then
-      -- §10.3.7.1.4: LS completed (no buffered requests in this model): clear ls_pending of the replier's entry
-      match lookup s.t p.so with
-      | some e => ({ s with t := insert s.t p.so { e with lsPending := false } }, [])
-      | none => (s, [])
+      -- §10.3.7.1.4: LS completed.  The code clears `ls_pending` of the replier's entry here; that entry has just
+      -- received a PV, so the flag no longer influences anything this model observes and is not tracked.
+      (s, [])
     else if env.pdrExceeded then (s, [])
     else
       let q := refreshDE s.t p
